@@ -258,6 +258,9 @@ func (e *Engine) CallFn(st *State, fn *ssa.Function, args []Value, in ssa.Instru
 	if intr := e.lookupIntrinsic(fn); intr != nil {
 		return intr(e, &CallCtx{St: st, Fn: fn, Args: args, Site: siteOf(in), Depth: depth, Instr: in})
 	}
+	if d := e.delegateFor(fn, in); d != nil {
+		return e.CallFn(st, d, args, in, depth+1)
+	}
 	if fn.Blocks == nil {
 		unsupported("no body/contract for %s (called at %s)", fn, siteOf(in))
 	}
@@ -315,6 +318,21 @@ func (e *Engine) allowedForeign(fn *ssa.Function) bool {
 	p := fn.Pkg.Pkg.Path()
 	if p == "github.com/veraison/eat" {
 		return true
+	}
+	if p == "github.com/veraison/go-cose" {
+		// plain-Go parts of go-cose are executed for real; its CBOR layer and crypto are
+		// contracts (delegates above)
+		switch fn.String() {
+		case "github.com/veraison/go-cose.NewSign1Message",
+			"(*github.com/veraison/go-cose.Sign1Message).Sign",
+			"(*github.com/veraison/go-cose.Sign1Message).Verify",
+			"(*github.com/veraison/go-cose.Headers).ensureSigningAlgorithm",
+			"(*github.com/veraison/go-cose.Headers).ensureVerificationAlgorithm",
+			"(github.com/veraison/go-cose.ProtectedHeader).SetAlgorithm",
+			"(github.com/veraison/go-cose.ProtectedHeader).Algorithm",
+			"(github.com/veraison/go-cose.Algorithm).String":
+			return true
+		}
 	}
 	return false
 }
@@ -863,6 +881,37 @@ func typeKey(t types.Type) string {
 		return "<nil>"
 	}
 	return types.TypeString(t, nil)
+}
+
+// delegates: library functions whose contract is written in Go in the harness package
+// (DESIGN.md section 3); the engine simply runs the harness function instead.
+var delegates = map[string]string{
+	"encoding/json.Marshal":   "verifJSONMarshal",
+	"encoding/json.Unmarshal": "verifJSONUnmarshal",
+	"(*github.com/veraison/go-cose.Sign1Message).toBeSigned":    "verifCoseTBS",
+	"(*github.com/veraison/go-cose.Sign1Message).MarshalCBOR":   "verifCoseMarshal",
+	"(*github.com/veraison/go-cose.Sign1Message).UnmarshalCBOR": "verifCoseUnmarshal",
+	"github.com/veraison/go-cose.NewVerifier":                   "verifCoseNewVerifier",
+}
+
+func (e *Engine) delegateFor(fn *ssa.Function, caller ssa.Instruction) *ssa.Function {
+	h, ok := delegates[fn.String()]
+	if !ok {
+		return nil
+	}
+	var order []string
+	if caller != nil && caller.Parent() != nil && caller.Parent().Pkg != nil {
+		order = append(order, caller.Parent().Pkg.Pkg.Path())
+	}
+	order = append(order, modPath, modPath+"/encoding")
+	for _, p := range order {
+		if pkg := e.pkgs[p]; pkg != nil && e.ownPkgs[p] {
+			if f := pkg.Func(h); f != nil {
+				return f
+			}
+		}
+	}
+	return nil
 }
 
 func (e *Engine) lookupIntrinsic(fn *ssa.Function) Intrinsic {
